@@ -2551,6 +2551,9 @@ impl CommandParser {
         while i < frames.len() {
             let score = Self::extract_string(&frames[i])?.parse::<f64>()
                 .map_err(|_| FerrousError::Command(CommandError::InvalidFloatValue))?;
+            if score.is_nan() {
+                return Err(FerrousError::Command(CommandError::InvalidFloatValue));
+            }
             let member = Self::extract_bytes(&frames[i + 1])?;
             score_members.push((score, member));
             i += 2;
